@@ -58,8 +58,7 @@ def parse_model(line: str):
     return lst, rd, parts[2] == "h1"
 
 
-CRASH_EXC = {"computed-index": "AttributeError", "numeric-index": "AttributeError", "concat-index": "AttributeError",
-             "inner-kill": "KeyError"}
+CRASH_EXC = J.CRASHED_BEFORE_FIX
 
 
 def classify(prog, real, node_reads):
@@ -89,7 +88,7 @@ class C31(Property):
     quick_budget_s = 400
     thorough_budget_s = 1800
     min_nontrivial = 50
-    rule = ("JavaScript fragments are compositions of 17 handled and 14 defect access patterns (dot / quoted-bracket / computed "
+    rule = ("JavaScript fragments are compositions of 19 handled and 12 defect access patterns (dot / quoted-bracket / computed "
             "access, aliasing by assignment / var initialiser / parenthesis / conditional / argument / return, nested function "
             "declarations and expressions, parameter shadowing, kills, conditionals, string literals mentioning inputs, reserved "
             "words), pretty-printed with random whitespace and quote style; every pattern alone first (corpus), then random "
@@ -115,8 +114,8 @@ class C31(Property):
     level_text = ("grade C (kernel): deps_sound_partial / deps_defined_partial prove, for every program of the decidable fragment "
                   "Frag.handled (direct dot/string-index access, aliasing by plain assignment, kills, conditionals, top-level function "
                   "declarations/expressions with parameter shadowing) and every terminating evaluation, reads ⊆ deps and no listener "
-                  "exception; paramref_sound for parameter references; the full statement is proved false on nine witnesses (known "
-                  "findings). The ANTLR grammar and JavaScript outside the fragment are validated differentially, not proved")
+                  "exception; deps_defined proves at full strength that the listener never raises (after fix 254d061); paramref_sound for "
+                  "parameter references; the soundness half is proved false on eight witnesses (known findings). The ANTLR grammar and JavaScript outside the fragment are validated differentially, not proved")
     level_note = ("Lean kernel, axioms within {propext, Classical.choice, Quot.sound}; the listener and evaluator models are hand-written and "
                   "compared on every run with the real resolve_dependencies and with node on generated fragments; the share of generated "
                   "cases inside the proved fragment is reported in the evidence")
